@@ -430,6 +430,32 @@ func c09WrappedPtr(c *core.Ctx) {
 		case o.Err != nil:
 			c.Outcome("wrapped-pointer/error")
 		default:
+			// an optional slice that cannot take one of its candidates is left at its zero value: it
+			// holds all of its targets or nothing, never a part of them
+			for i, n := range o.Nodes {
+				want := 0
+				for _, k := range p.Edges[i] {
+					if k == scen.ESlicePtr {
+						want++
+					}
+				}
+				holes := 0
+				for _, q := range n.LP {
+					if q == nil {
+						holes++
+					}
+				}
+				if holes > 0 {
+					c.Outcome("wrapped-pointer/partial-slice")
+					c.Report(key, "optional-touched", fmt.Sprintf("graph %v, substitution plan %v: the optional []*T point of %s holds a slice of %d with %d empty places (one of its candidates was substituted by an object that does not fit)", p.Edges, p.Wrap, n.Nm, len(n.LP), holes), cs)
+					return
+				}
+				if got := len(n.LP); got != 0 && got != want {
+					c.Outcome("wrapped-pointer/partial-slice")
+					c.Report(key, "optional-touched", fmt.Sprintf("graph %v, substitution plan %v: the optional []*T point of %s holds %d of its %d targets (one of them was substituted by an object that does not fit)", p.Edges, p.Wrap, n.Nm, got, want), cs)
+					return
+				}
+			}
 			c.Outcome("wrapped-pointer/started")
 		}
 		if c.S.Programs%500 == 1 {
